@@ -7,6 +7,8 @@ import (
 	"math/rand"
 	"os"
 	"reflect"
+	"runtime"
+	"sort"
 	"sync"
 	"sync/atomic"
 	"time"
@@ -308,8 +310,110 @@ func runPoolConc(seed int64, tier, out string, shards int) {
 			samples = append(samples, proj.M{"goroutines": gs, "size": size, "kind": kind, "calls": gs * opsPer})
 		}
 	}
+	// bursts: c objects are cached, then G > c callers are released at the same instant (spin barrier) and
+	// each calls Get once: c of them receive the cached objects, the others fresh ones, nobody waits.
+	// The first rounds are logged with tickets like the histories above; the later ones only watch for blocking.
+	rounds := 4000
+	if tier == "thorough" {
+		rounds = 60000
+	}
+	for b := 0; b < 3; b++ {
+		h := nh + b
+		size := b + 1
+		G := []int{3, 8, 5}[b]
+		kind := poolKinds[b%3]
+		p := newPool(kind, size, tm, nm)
+		ids := &idTable{ids: map[interface{}]int{}}
+		type rec struct {
+			T   int64
+			Typ string
+			G   int
+			Op  string
+			Obj int
+		}
+		var ticket, phase int64
+		var finished int32
+		logs := make([][]rec, G+1)
+		got := make([]interface{}, G)
+		const logged = 40
+		for g := 0; g < G; g++ {
+			go func(g int) {
+				for round := int64(1); round <= int64(rounds); round++ {
+					for atomic.LoadInt64(&phase) < round {
+						runtime.Gosched()
+					}
+					s := atomic.AddInt64(&ticket, 1)
+					o := p.Get()
+					e := atomic.AddInt64(&ticket, 1)
+					got[g] = o
+					if round <= logged {
+						id := ids.id(o)
+						logs[g] = append(logs[g], rec{s, "S", g, "get", id}, rec{e, "E", g, "get", id})
+					}
+					atomic.AddInt32(&finished, 1)
+				}
+			}(g)
+		}
+		blocked := int32(0)
+		var held []interface{}
+		for i := 0; i < size; i++ {
+			s := atomic.AddInt64(&ticket, 1)
+			o := p.Get()
+			e := atomic.AddInt64(&ticket, 1)
+			id := ids.id(o)
+			logs[G] = append(logs[G], rec{s, "S", G, "get", id}, rec{e, "E", G, "get", id})
+			held = append(held, o)
+		}
+		nrounds := 0
+	burst:
+		for round := int64(1); round <= int64(rounds); round++ {
+			c := 1 + int(round)%size
+			for i := 0; i < c && i < len(held); i++ {
+				s := atomic.AddInt64(&ticket, 1)
+				p.Return(held[i])
+				e := atomic.AddInt64(&ticket, 1)
+				if round <= logged {
+					id := ids.id(held[i])
+					logs[G] = append(logs[G], rec{s, "S", G, "ret", id}, rec{e, "E", G, "ret", id})
+				}
+			}
+			atomic.StoreInt32(&finished, 0)
+			atomic.StoreInt64(&phase, round)
+			deadline := time.Now().Add(10 * time.Second)
+			for atomic.LoadInt32(&finished) < int32(G) {
+				if time.Now().After(deadline) {
+					blocked = 1
+					break burst
+				}
+				runtime.Gosched()
+			}
+			held = append(held[:0], got...)
+			nrounds++
+		}
+		f, _ := os.Create(fmt.Sprintf("%s/trace.%02d.ndjson", out, h))
+		bw := bufio.NewWriter(f)
+		hdr, _ := json.Marshal(proj.M{"size": size, "g": G + 1, "kind": kind, "blocked": blocked, "id": h, "burst_rounds": nrounds})
+		bw.Write(hdr)
+		bw.WriteByte('\n')
+		if blocked == 0 {
+			all := []rec{}
+			for _, l := range logs {
+				all = append(all, l...)
+			}
+			sort.Slice(all, func(i, j int) bool { return all[i].T < all[j].T })
+			for _, x := range all {
+				bj, _ := json.Marshal(proj.M{"t": x.Typ, "g": x.G, "op": x.Op, "obj": x.Obj})
+				bw.Write(bj)
+				bw.WriteByte('\n')
+			}
+			total += len(all)/2 + (nrounds-logged)*G
+		}
+		bw.Flush()
+		f.Close()
+	}
+	nh += 3
 	s := proj.M{"evaluations": total, "traces": nh, "distinct_nontrivial": nh, "samples": samples,
-		"family_rule": "concurrent histories: 1..64 goroutines x pool size 0..8 x random Get/Return mixes, each call bracketed by tickets of one atomic counter; distinct = histories"}
+		"family_rule": "concurrent histories: 1..64 goroutines x pool size 0..8 x random Get/Return mixes, each call bracketed by tickets of one atomic counter; plus bursts: c objects cached and G > c callers released at one instant, 4000 (60000) rounds per pool size 1..3, the first 40 rounds logged for the linearizability check, all watched for blocking; distinct = histories"}
 	b, _ := json.Marshal(s)
 	os.WriteFile(out+"/summary.json", b, 0o644)
 }
